@@ -327,7 +327,9 @@ def verify_function(contract, reg, repo=REPO):
             elif isinstance(ty, (MFn, MCls, MNS)):
                 st.env[name] = ty
             else:
-                v = MNONE if ty == NONE else const(ty, name)
+                v = shaped(name, ty)
+                if v is None:
+                    v = MNONE if ty == NONE else const(ty, name)
                 st.env[name] = v
                 if isinstance(v, SV):
                     inputs[name] = v
